@@ -16,11 +16,11 @@ CFG = {"S": "SRV", "T": "CLI", "bound": 2}
 
 HARNESSES = {
     "send_send": dict(pre=0, tasks=[("send", "x1"), ("send", "x2")]),
-    "send_resend": dict(pre=2, tasks=[("feed", "rr", 2), ("send", "x1")]),
+    "send_resend": dict(pre=3, tasks=[("feed", "rr", 2), ("send", "x1")]),
     "send_testreq_in": dict(pre=0, tasks=[("feed", "tr"), ("send", "x1")]),
     "send_testreq_out": dict(pre=0, tasks=[("testreq",), ("send", "x1")]),
     "send_logon": dict(pre=-1, tasks=[("feed", "logon"), ("send", "x1")]),
-    "send_send_resend": dict(pre=2, tasks=[("feed", "rr", 2), ("send", "x1"), ("send", "x2")]),
+    "send_send_resend": dict(pre=3, tasks=[("feed", "rr", 2), ("send", "x1"), ("send", "x2")]),
     "send_gap": dict(pre=0, tasks=[("feed", "gap"), ("send", "x1")]),
     "send_send_send": dict(pre=0, tasks=[("send", "x1"), ("send", "x2"), ("send", "x3")]),
 }
@@ -38,7 +38,10 @@ def run_one(hname, s):
         if h["pre"] >= 0:
             w.logon()
             for i in range(h["pre"]):
-                w.send(FIXMessage("D", {11: f"pre{i}", 55: "X"}))
+                tags = {11: f"pre{i}", 55: "X"}
+                if i == 1:
+                    tags[43] = "N"  # an application message that spells out PossDupFlag=N
+                w.send(FIXMessage("D", tags))
         base_frames = len(w.writer.out)
         parked = []
         state = {"pauses": 0}
@@ -176,6 +179,13 @@ def judge(hname, obs, s):
         known[n] = (t, cid)
         last_new = n
         highest = max(highest, n)
+    # a ResendRequest(2, 0) serviced meanwhile must still be answered completely: every journaled
+    # application message sent before the request is retransmitted under its own number, in order
+    if "resend" in hname:
+        want = [(n, cid) for (t, n, pd, cid) in obs["pre"] if t == "D"]
+        got = [(n, cid) for (t, n, pd, cid, new) in obs["frames"] if pd == "Y" and t == "D"]
+        if got[: len(want)] != want and [g for g in got if g in want] != want:
+            return V("resend_reply_incomplete", "the reader services a ResendRequest completely while other tasks send", want=want, got=got)
     refused = [i for i, (st, exc) in obs["results"].items() if exc is not None]
     for (t, n, pd, cid, new) in obs["frames"]:
         if pd != "Y" and t != "4" and n not in obs["rows"] and not refused:
